@@ -65,6 +65,12 @@ func (i *interpreter) externalFor(fn *ssa.Function) externalFn {
 		return nil
 	}
 	name := fn.String()
+	if to := E.Overrides[name]; to != nil {
+		ext := func(fr *frame, a []value) value { return call(fr.i, fr, token.NoPos, to, a) }
+		i.persist.extern[fn] = ext
+		E.Stubs["override "+name+" -> "+to.String()]++
+		return ext
+	}
 	ext := lookupExternal(fn, name)
 	if ext == nil {
 		i.persist.noext[fn] = true
